@@ -69,6 +69,55 @@ def one_model(chk, binary, name, model, cfg, stats):
     stats["models"] = stats.get("models", 0) + 1
 
 
+def foreign_texts_cpp(user, funcs):
+    out = []
+    for _, text in sorted(user, key=lambda x: x[0]):
+        for piece in re.split(r"\n\n+", text.strip()):
+            if piece.strip():
+                out.append(piece.strip())
+    return out + [f.strip() for f in funcs]
+
+
+def one_model_cpp(chk, binary, name, em, user, funcs, cfg, stats):
+    w = os.path.join(WORK, "bg18cpp", chk.tier, name)
+    tag = dict(model=name, mode="C++", config=cfg, roots=[(x["kind"], x["name"], x["inst"], x["ctx"]) for x in em.roots])
+    hashes = set()
+    first = None
+    nruns = 6 if chk.tier == "quick" else 16
+    for k in range(nruns):
+        r = bgrun.run_tool_cpp(binary, w, em.text, config=cfg)
+        if r["rc"] != 0 or r["text"] is None:
+            chk.violation("C18:tool-failed", "cglue-bindgen failed on C++ header %s: %s" % (name, r["err"][-600:]), tag)
+            return
+        hashes.add(hashlib.sha256(r["text"].encode()).hexdigest())
+        first = first or r
+    stats["cpp_runs"] = stats.get("cpp_runs", 0) + nruns
+    if len(hashes) > 1:
+        chk.violation("C18:cpp:output-not-reproducible", "C++ model %s (config %s): %d different outputs for identical input" % (name, cfg, len(hashes)), tag)
+    cc = bgrun.compile_check_cpp(first["out_path"], w, thorough=chk.tier != "quick")
+    for comp, (rc, err) in cc.items():
+        if rc != 0:
+            cls, msg = bgrun.cpp_error_class(err)
+            if cls == "other":
+                cls = re.sub(r"[^A-Za-z0-9]+", "-", re.sub(r"‘[^’]*’", "X", msg))[:60].strip("-")
+            chk.violation("C18:cpp:does-not-compile:%s" % cls, "C++ model %s (config %s): %s rejects the processed header: %s" % (name, cfg, comp, msg), tag)
+            break
+    stats["cpp_compiled"] = stats.get("cpp_compiled", 0) + 1
+    pos = -1
+    text = first["text"]
+    for decl in foreign_texts_cpp(user, funcs):
+        p = text.find(decl)
+        if p < 0:
+            chk.violation("C18:cpp:foreign-declaration-altered", "C++ model %s: a declaration that does not belong to CGlue is missing or altered: %s" % (name, decl[:160]), tag)
+            break
+        if p < pos:
+            chk.violation("C18:cpp:foreign-declaration-reordered", "C++ model %s: foreign declaration moved before an earlier one: %s" % (name, decl[:160]), tag)
+            break
+        pos = p
+        stats["cpp_foreign_decls"] = stats.get("cpp_foreign_decls", 0) + 1
+    stats["cpp_models"] = stats.get("cpp_models", 0) + 1
+
+
 def argv_checks(chk, binary):
     model = emit.plugin_api_model()
     em = emit.emit(model)
@@ -118,19 +167,31 @@ def run(chk, replay=None):
     for i in range(n):
         seed = chk.seed * 100000 + 7000 + i
         jobs.append(lambda i=i, seed=seed: one_model(chk, binary, "m%d" % seed, emit.random_model(seed, fnptr=(i % 6 == 0)), CONFIGS[i % len(CONFIGS)], stats))
+    ncpp = 16 if q else 200
+    for i in range(ncpp):
+        seed = chk.seed * 100000 + 57000 + i
+
+        def job(i=i, seed=seed):
+            m, em, user, funcs = bgrun.emit_cpp.random_cpp(seed, fnptr=(i % 6 == 0))
+            one_model_cpp(chk, binary, "c%d" % seed, em, user, funcs, CONFIGS[i % len(CONFIGS)], stats)
+        jobs.append(job)
     rtrun.run_many(chk, jobs)
     stats["argv_cases"] = argv_checks(chk, binary)
     chk.part("headers", **stats)
     m0 = emit.random_model(chk.seed * 100000 + 7001)
     chk.sample(dict(what="foreign declarations injected into a model", case=foreign_texts(m0)[:6]))
     chk.sample(dict(what="root types of that model (kind, name, container, context)", case=m0.roots))
-    chk.coverage["evaluations"] = stats.get("runs", 0) + stats.get("compiled", 0) * 2 + stats.get("foreign_decls", 0) + stats.get("argv_cases", 0)
-    chk.coverage["distinct_nontrivial"] = stats.get("models", 0)
+    chk.coverage["evaluations"] = (stats.get("runs", 0) + stats.get("compiled", 0) * 2 + stats.get("foreign_decls", 0) + stats.get("argv_cases", 0)
+                                   + stats.get("cpp_runs", 0) + stats.get("cpp_compiled", 0) * 2 + stats.get("cpp_foreign_decls", 0))
+    chk.coverage["distinct_nontrivial"] = stats.get("models", 0) + stats.get("cpp_models", 0)
     chk.coverage["rule"] = ("the header space of C17 (incl. several context types in one header) with unrelated user declarations injected at random positions - structs named *Vtbl, *_Context, "
                             "*RetTmp_*, fields called ret_tmp / context, functions ending in _drop / _clone, macros, enums, function-pointer typedefs; per header: 8-16 runs in fresh processes "
                             "(byte identity), gcc -std=c99 and clang -fsyntax-only on a TU that only includes the output, every foreign declaration present verbatim and in input order; "
-                            "6 configurations; command-line cases for `--` splitting, -o/--output capture, +nightly, config source. distinct = headers")
+                            "6 configurations; command-line cases for `--` splitting, -o/--output capture, +nightly, config source. The same models in cbindgen's C++ shape with C++ user "
+                            "declarations (templates named *Vtbl / *ObjContainer / UserBox, a `Settings<Context>` template, enum class, constexpr, function-pointer alias): repeated runs, g++ and "
+                            "clang++ -std=c++11 (thorough: also c++17) on a TU whose first include is the output, foreign declarations verbatim and in order. distinct = headers")
     chk.floor("headers", stats.get("models", 0), 20)
     chk.floor("foreign declarations checked", stats.get("foreign_decls", 0), 100)
     chk.floor("command-line cases", stats.get("argv_cases", 0), 6)
-    chk.assumptions += ["headers come from the calibrated cbindgen emulator; C mode"]
+    chk.floor("C++ headers", stats.get("cpp_models", 0), 10)
+    chk.assumptions += ["headers come from the calibrated cbindgen emulators (C shape and C++ shape); cbindgen itself is not installed"]
